@@ -109,7 +109,9 @@ Definition clause_mask (c : case) (r : req) : N :=
 Definition oracle_ok (c : case) : bool := forallb (fun r => (clause_mask c r =? 0)%N) (reqs c).
 
 (* known classes: 1 = only prefix-completeness fails and the account candidates were narrowed
-   through the by-prefix index; 2 = only the edit-range clause fails; 3 = both, nothing else *)
+   through the by-prefix index; 4 = only the edit-covers-the-fragment clause fails; 3 = both, nothing
+   else.  Class 2 (edit start behind the cursor) was repaired in /repo and is no longer recorded: a
+   case classified 2 is reported as a violation. *)
 Definition narrowed (c : case) (r : req) : bool :=
   negb (beq (extract_account_prefix (content c) (q_ln r) (q_ch r)) []) &&
   isSome (alookup (extract_account_prefix (content c) (q_ln r) (q_ch r)) (an_byprefix (an c))).
